@@ -730,8 +730,13 @@ func writeEvidence(id, tier string, seed uint64, spec *checkSpec, md *meta, t *a
 	if err != nil {
 		infra("evidence marshal: %v", err)
 	}
-	os.MkdirAll(filepath.Join(verifDir, "evidence"), 0o755)
-	if err := os.WriteFile(filepath.Join(verifDir, "evidence", id+".json"), b, 0o644); err != nil {
+	evDir := filepath.Join(verifDir, "evidence")
+	if repoDir() != "/repo" {
+		// a run against a scratch copy (sensitivity testing) is not evidence
+		evDir = filepath.Join(verifDir, ".build", "evidence-scratch")
+	}
+	os.MkdirAll(evDir, 0o755)
+	if err := os.WriteFile(filepath.Join(evDir, id+".json"), b, 0o644); err != nil {
 		infra("evidence write: %v", err)
 	}
 }
